@@ -128,7 +128,7 @@ def simulate(pool: dict, plan: list[list[dict]], strategy: dict, sched_seed: int
             inter += 1
         last = t
     return {"results": results, "failure": (type(failure).__name__ + ": " + str(failure)) if failure else None,
-            "settings_at_quiescence": model.process_settings(),
+            "settings_at_quiescence": model.process_settings(), "site_files": sorted(sc.site_files), "site_lines": sorted(sc.site_lines),
             "events": sc.total_events, "switches": len(sc.switches), "switch_list": [list(x) for x in sc.switches][:20000],
             "schedule_fp": fp, "site_fp": site_fp, "shared_site_events": len(sc.site_trace), "shared_site_interleavings": inter,
             "probes": sc.probes, "locks": locks, "first": getattr(sc, "first", None),
@@ -149,7 +149,7 @@ def reference(pool: dict, job: dict) -> dict:
     if r["failure"]:
         raise HarnessError(f"reference run failed: {r['failure']}")
     out = r["results"][0][0]
-    return {"digest": out.get("digest"), "escaped": out.get("escaped"), "events": r["events"]}
+    return {"digest": out.get("digest"), "escaped": out.get("escaped"), "events": r["events"], "touched": r.get("site_files", []), "touched_lines": r.get("site_lines", [])}
 
 
 def draw_kind(rng: random.Random, counter: int) -> dict:
@@ -165,6 +165,7 @@ def draw_kind(rng: random.Random, counter: int) -> dict:
             groups = novel  # state that the tree under test shares and the pinned tree did not: the prime suspect
         focus = groups[(counter + rng.randrange(3)) % len(groups)]
         out["focus"] = focus
+        out["novel"] = bool(novel) and focus in novel
         if focus is not None:
             f = focus.replace("\\", "/")
             if "/compiler/" in f or "reader" in f or f.endswith("ssb_compiler.py") or f.endswith("macro.py") or "listener" in f or "source_map" in f:
@@ -194,7 +195,8 @@ def draw_strategy(rng: random.Random, est_events: int, t0_events: int, pre: dict
     return {"kind": "skew", "release_at": max(1, int(rng.random() * t0_events)), "then_gap": rng.choice([30, 300, 3000]), "gc_points": gcp, "max_switches": 5000}
 
 
-def gen_plan(pool: dict, rng: random.Random, mix_hint=None) -> list[list[dict]]:
+def gen_plan(pool: dict, rng: random.Random, mix_hint=None, candidates=None) -> list[list[dict]]:
+    """candidates: jobs known (from their reference runs) to reach the group of sites this run concentrates on."""
     nthreads = rng.choice([2, 2, 3, 4])
     nt, nd, ns = len(pool["texts"]), len(pool["docs"]), len(pool["ssbs"])
     plan = []
@@ -208,6 +210,9 @@ def gen_plan(pool: dict, rng: random.Random, mix_hint=None) -> list[list[dict]]:
         # (state left by a FINISHED call is often what the next two calls race for)
         for _ in range(rng.choice([2, 3, 3]) if mix_hint else rng.choice([1, 1, 2, 3])):
             k = rng.choice(mix)
+            if candidates and rng.random() < 0.8:
+                jobs.append(dict(rng.choice(candidates)))
+                continue
             if k == "C":
                 proj = [i_ for i_, t_ in enumerate(pool["texts"]) if t_["kind"] == "exps-imports"]
                 # scripts of the multi-file projects share files, directories and lookup paths: two of them at once is
@@ -268,7 +273,37 @@ def run_item(item: dict) -> dict:
         rs = seeds.H(pool_seed, "schedule", s)
         prng = seeds.stream(rs, "plan")
         pre = draw_kind(seeds.stream(rs, "kind"), item["idx"] * item["schedules"] + s)
-        plan = gen_plan(pool, prng, pre["mix"])
+        candidates = None
+        if pre.get("novel"):
+            # state that the tree under test newly shares: find out (once per pool) which jobs reach it at all, and build
+            # the plan from those - two calls that never touch it cannot race for it
+            if "_all" not in refs:
+                for j_ in ([{"k": "D", "j": x} for x in range(len(pool["docs"]))] + [{"k": "S", "j": x} for x in range(len(pool["docs"]))]
+                           + [{"k": "C", "i": x} for x in range(len(pool["texts"]))]):
+                    if job_key(j_) not in refs:
+                        try:
+                            refs[job_key(j_)] = forkrun(reference, pool, j_, timeout=300)
+                            res["processes"] += 1
+                        except HarnessError:
+                            pass
+                refs["_all"] = True
+            fr = pre["focus"]
+            # within the focus file, concentrate on ONE shared-looking line, rare ones first (a line every call passes is
+            # covered anyway; a line only few inputs reach - a table extended on demand, a branch for deep nesting - needs
+            # two of exactly those inputs at once)
+            by_line: dict = {}
+            for k_, v_ in refs.items():
+                if k_ == "_all" or k_.startswith("SC") or k_[0] not in "DSC":
+                    continue
+                for f_, ln_ in (v_.get("touched_lines") or []):
+                    if f_ == fr:
+                        by_line.setdefault(ln_, []).append(k_)
+            if by_line:
+                order = sorted(by_line, key=lambda ln_: (len(by_line[ln_]), ln_))
+                pick = order[(item["idx"] * item["schedules"] + s) % min(len(order), 6)]
+                candidates = [{"k": k_[0], ("i" if k_[0] == "C" else "j"): int(k_[1:])} for k_ in by_line[pick]]
+            res["probes"]["plans_built_from_jobs_reaching_the_focus"] = res["probes"].get("plans_built_from_jobs_reaching_the_focus", 0) + (1 if candidates else 0)
+        plan = gen_plan(pool, prng, pre["mix"], candidates)
         for jobs in plan:
             for j in jobs:
                 if job_key(j) not in refs:
